@@ -116,7 +116,7 @@ def repack_sequence(seq, cf, seed, mode, qmode):
                 for comp in ("y", "c1", "c2"):
                     vals = draw_values(rnd, len(s[comp + "_transform"]), m, depth_y if comp == "y" else depth_c)
                     while -(-Z.block_bits(vals) // unit) > 255:
-                        vals = [v // 4 for v in vals]
+                        vals = [(v // 4) if v >= 0 else -((-v) // 4) for v in vals]  # towards zero (floor would stick at -1)
                     need = -(-Z.block_bits(vals) // unit)
                     length = need + (rnd.randint(0, min(3, 255 - need)) if rnd.random() < 0.3 else 0)
                     s[comp + "_transform"] = vals
